@@ -20,7 +20,7 @@ type SNode struct {
 	Kind      string       `json:"kind"` // container list leaf leaflist choice case
 	Name      string       `json:"name"`
 	Presence  bool         `json:"presence"`
-	Typ       string       `json:"typ"` // string int8 empty, "-" for interior nodes
+	Typ       string       `json:"typ"`  // string int8 empty boolean enum union or a typedef of one (t...), "-" for interior nodes
 	Key       string       `json:"key"`  // key leaf of a single-key list
 	Keys      []string     `json:"keys"` // the key statement (names in its order); empty in older records: Key alone
 	Mandatory bool         `json:"mandatory"`
@@ -43,8 +43,10 @@ func renderNode(b *strings.Builder, n SNode, ind string) {
 		switch n.Typ {
 		case "string", "int8", "empty", "boolean": // boolean: key leaves of the multi-key path shapes
 			w("  type %s;", n.Typ)
-		case "tstring", "tint8", "tempty": // the same types reached through a typedef of the module
+		case "tstring", "tint8", "tempty", "tbool", "tenum", "tunion": // the same types reached through a typedef of the module
 			w("  type %s;", n.Typ)
+		case "enum", "union":
+			w("  type %s", typeText[n.Typ])
 		default:
 			panic("dvm: unknown type " + n.Typ)
 		}
@@ -112,6 +114,12 @@ func renderNode(b *strings.Builder, n SNode, ind string) {
 	w("}")
 }
 
+// typeText: the YANG text of the types of SchemaNodes.tla that take sub-statements.
+var typeText = map[string]string{
+	"enum":  "enumeration { enum on; enum off; }",
+	"union": "union { type int8; type boolean; }",
+}
+
 // KeyStmt: the key names of a list in the order of its key statement.
 func (n SNode) KeyStmt() []string {
 	if len(n.Keys) > 0 {
@@ -125,6 +133,7 @@ func RenderYang(sh Shape) string {
 	var b strings.Builder
 	fmt.Fprintf(&b, "module v%d {\n  namespace \"urn:v%d\";\n  prefix v;\n", sh.ID, sh.ID)
 	b.WriteString("  typedef tstring { type string; }\n  typedef tint8 { type int8; }\n  typedef tempty { type empty; }\n")
+	b.WriteString("  typedef tbool { type boolean; }\n  typedef tenum { type " + typeText["enum"] + " }\n  typedef tunion { type " + typeText["union"] + " }\n")
 	for _, k := range sh.Kids {
 		renderNode(&b, k, "  ")
 	}
@@ -156,6 +165,12 @@ func BaseType(t string) string {
 		return "int8"
 	case "tempty":
 		return "empty"
+	case "tbool":
+		return "boolean"
+	case "tenum":
+		return "enum"
+	case "tunion":
+		return "union"
 	}
 	return t
 }
